@@ -25,6 +25,7 @@ from .defuse import DefUse
 _CLOSURE_STACK = []
 # error-plumbing wrappers: the value (and whether it is a success or a failure) is that of the first argument
 _PASS_CALLS = {'Result::map_err', 'Option::ok_or_else', 'Option::ok_or'}
+_MUTATORS = re.compile(r'^(Vec|HashSet|HashMap|BTreeMap|BTreeSet|VecDeque|LinkedHashMap|slice)::(reverse|push|push_back|insert|extend|extend_from_slice|remove|clear|retain|sort|sort_by|sort_by_key|sort_unstable|dedup|truncate|drain|pop|append|swap_remove)$')
 _OKV = {'Ok', 'Some', 'Continue'}
 _ERRV = {'Err', 'None', 'Break'}
 _NEG = {'Eq': 'Ne', 'Ne': 'Eq', 'Lt': 'Ge', 'Ge': 'Lt', 'Gt': 'Le', 'Le': 'Gt'}
@@ -665,6 +666,10 @@ class Exits:
                     if d and d[0] == 'assign':
                         mm = re.match(r"^&mut \(+\*(_\d+)\)", d[2].rhs.strip())
                         if mm and self.param_root(int(mm.group(1)[1:])) is not None:
+                            out.append((bid, t.span, 'mutate %s' % self.call_desc(t), 'effect'))
+                            break
+                        # accumulation into a local container: what is added, and (through the control dependence) when
+                        if re.match(r'^&mut _\d+$', d[2].rhs.strip()) and a is t.args[0] and _MUTATORS.search(mir.callee_key(t.callee)):
                             out.append((bid, t.span, 'mutate %s' % self.call_desc(t), 'effect'))
                             break
         return out
